@@ -62,6 +62,9 @@ pub enum POut {
 pub trait PCode<'a> {
     fn code_id(&self) -> u64;
     fn instantiate(&self, args: &[u8], opts: &InstOpts, sender: &Addr) -> POut;
+    /// a call through the `Proxy` value an earlier `instantiate` of this code returned for `addr`
+    /// (None: this code never instantiated that address)
+    fn call_kept(&self, addr: &Addr, hid: &str, args: &[u8], funds: Option<&[Coin]>, sender: &Addr, new_code: u64) -> Option<POut>;
 }
 
 /// glue of one program, typed by the chain it lives on
